@@ -75,7 +75,12 @@ void run_modes(Src &s, Ctx &c, const char *hn) {
     if (c.mode != "C12") { R r(s, c, false, false); r.run(); return; }
     Src a = s;
     uint64_t obsA; int sanA;
-    { int s0 = g_san_reports; R r(a, c, false, false); r.run(); obsA = r.obs; sanA = g_san_reports - s0; }
+    // "stored values are returned byte-for-byte with their exact length" is part of C12 itself:
+    // a value/size mismatch against the model decides here as well (in both runs)
+    uint32_t dec0 = c.deciding;
+    c.deciding |= FUNC | ITER | NEAR;
+    { int s0 = g_san_reports; R r(a, c, false, false); try { r.run(); } catch (...) { c.deciding = dec0; throw; } obsA = r.obs; sanA = g_san_reports - s0; }
+    c.deciding = dec0;
     c.trace.clear(); c.opno = 0; c.nontrivial = false; c.tags.clear();
     vf_ledger_reset();
     int s0 = g_san_reports;
